@@ -154,6 +154,23 @@ def oracle_c17(m, entries, fm, filtered):
     import statistics
     expect("Mean depth of tree", round(statistics.mean(depths), 2))
     expect("Median depth of tree", round(statistics.median(depths), 2))
+    # constraints per feature: for each feature the number of constraints that mention it
+    def mentioned(node, acc):
+        d, l, r = node
+        if d[0] == "s" and l is None and r is None and not d[1].startswith("'"):
+            acc.add(d[1])
+        for c in (l, r):
+            if c is not None:
+                mentioned(c, acc)
+        return acc
+    per_ctc = [mentioned(node, set()) for _, node in m["ctcs"]]
+    cpf = [sum(1 for s_ in per_ctc if n in s_) for n in fnames]
+    if "Min constraints per feature" in R:
+        expect("Min constraints per feature", min(cpf))
+        expect("Max constraints per feature", max(cpf))
+        expect("Avg constraints per feature", round(statistics.mean(cpf), 2))
+        expect("Features in constraints", sorted(set().union(*per_ctc)) if per_ctc else [])
+        expect("Cross-tree constraints", sorted(str(c) for c in fm.get_constraints()))
     # duplicates of stand-alone operations
     from flamapy.metamodels.fm_metamodel.operations import (FMAverageBranchingFactor, FMMaxDepthTree,
                                                              FMLeafFeatures, FMCountLeafs)
